@@ -467,7 +467,31 @@ def gen_batch(rng, doc, texts, n_edits, kinds, states=("plain",), comment_p=0.0,
             continue
         rngs.append((t["a"], t["b"]))
         edits.append({**t, "kind": kind, "new": new, "comment": ("note " + word()) if rng.random() < comment_p else None})
+    if not allow_collisions:
+        bad = set(batch_collisions(doc, edits))
+        edits = [e for i, e in enumerate(edits) if i not in bad]
     return edits
+
+
+def batch_collisions(doc, edits):
+    """indices of edits whose target would no longer occur exactly once in the accepted text once the *other* edits
+    of the batch are applied (it also occurs in text another edit writes, or in text that only comes about next to
+    it — 'ribbon ' + '1 fjord' makes ' 1'). The engine matches against the document as the batch changes it."""
+    bad = []
+    loc = [e for e in edits if e.get("a", -1) >= 0 and e.get("pi", -1) >= 0]
+    for i, e in enumerate(edits):
+        if e not in loc or not e.get("target"):
+            continue
+        others = [o for o in loc if o is not e and not (o["pi"] == e["pi"] and o["a"] < e["b"] and e["a"] < o["b"])]
+        if not others:
+            continue
+        try:
+            joined = "\n\n".join(expected_accepted(doc, others))
+        except Exception:
+            continue
+        if count_occ(joined, e["target"]) != 1:
+            bad.append(i)
+    return bad
 
 
 def expected_accepted(doc, edits):
